@@ -9,3 +9,4 @@ CONSTANTS
   Travs <- AllTravs
   MaxSteps = 6
   ViewHist = 0
+  EmitAll = TRUE
